@@ -311,6 +311,10 @@ def corpus_trees():
         [('while', [], [('while', [], [A(1, 'a')], [R(10, 'a')]), R(11, 'a')], [R(12, 'a')]), R(13, 'a')],
         # try/except/else/finally with handler name
         [('try', [A(1, 'a')], [([], (2, 'e1'), [R(10, 'e1'), A(3, 'a')]), ([], None, [A(4, 'b')])], [A(5, 'b')], [R(11, 'a'), R(12, 'b')], True, True), R(13, 'b')],
+        # try / except / else / finally where handler and else rebind the name bound in the body: the body's
+        # binding must NOT reach the read after the statement (seeded C03-2)
+        [A(1, 'y'), ('try', [A(2, 'x')], [([], None, [A(3, 'x')])], [A(4, 'x')], [R(10, 'y')], True, True), R(11, 'x')],
+        [A(1, 'y'), ('try', [A(2, 'x')], [([], (3, 'e1'), [A(4, 'x')]), ([], None, [A(5, 'x')])], [A(6, 'x')], [R(10, 'y')], True, True), R(11, 'x')],
         # early return in a branch (C02 domain; phantom for C03 = K1)
         [('if', [], [A(1, 'x'), ('return',)], [A(2, 'x')]), R(10, 'x')],
     ]
